@@ -15,8 +15,8 @@ from vf.oracles import same
 
 PROPERTY = "C24"
 WORKERS = {"quick": 16, "thorough": 16}
-CASES = {"quick": 6000, "thorough": 150000}
-TIME = {"quick": 50, "thorough": 1200}
+CASES = {"quick": 6000, "thorough": 36000}
+TIME = {"quick": 50, "thorough": 240}
 TECHNIQUE = "runtime monitoring: bounds-checking, logging source array-likes (RecStore) record every read request; offline check of the request log plus NumPy mirror of the values; slice-helper contracts stay attached"
 RULE = (
     "sources: RecStore (non-NumPy array-like that refuses to clip) with/without a .chunks/.shards storage grid (aligned, prime, larger than "
